@@ -57,12 +57,22 @@ Definition verdict (c : case) : Z * Z :=
         else if negb ((depth =? -1) && (labels =? 0) && followup) then (3, 7) (* not at rest *)
         else
           let nt := notry (SBlock p) in
+          (* the model's outcome for a halt: OThrew VHalt = Run unwinds with the host's panic;
+             OThrew VHaltCaught = a try recovered it and Run returns it as an error *)
+          let norm (o : outcome) : outcome * bool :=
+            match o with
+            | OThrew VHalt => (OThrew VHalt, true)
+            | OThrew VHaltCaught => (OThrew VHalt, false)
+            | _ => (o, false)
+            end in
+          let mk (l : list val) (o : outcome) (g : list val) : view :=
+            let '(o', pn) := norm (project mode o) in mkview l o' pn g in
           let model :=
-            if k <=? 0 then mkview (out sb) (project mode ob) false (globals_of mode sb)
+            if k <=? 0 then mk (out sb) ob (globals_of mode sb)
             else if k <=? off mode then mkview [] (OThrew VHalt) true (globals_of mode (init_state declared 0))
             else if k - off mode <=? nm then
               let '(sa, _, oa) := run_o fuel declared (k - off mode) p in
-              mkview (out sa) (project mode oa) (halt_out oa && nt) (globals_of mode sa)
+              mk (out sa) oa (globals_of mode sa)
             else mkview (out sb) (OThrew VHalt) true (globals_of mode sb) in
           let spec :=
             if k <=? 0 then model
@@ -71,13 +81,11 @@ Definition verdict (c : case) : Z * Z :=
               let '(sa, _, oa) := run_o fuel declared (k - off mode) p in
               match snap sa with
               | Some l => mkview l (OThrew VHalt) true (if nt then globals_of mode sa else globals)
-              | None => mkview (out sa) (project mode oa) false (globals_of mode sa)
+              | None => mk (out sa) oa (globals_of mode sa)
               end
             else model in
-          (* with a try in the program, whether the halt came back as a panic or as an error is not modelled *)
-          let impl := mkview lg oc (if nt then aspanic else halt_out oc && false) globals in
-          let model' := mkview (v_log model) (v_out model) (if nt then v_panic model else false) (v_globals model) in
-          judge view_eqb impl model' spec (if nt then 0 else 1)
+          let impl := mkview lg oc aspanic globals in
+          judge view_eqb impl model spec (if nt then 0 else 1)
       end
   | PCase mode p j lg oc aspanic depth labels followup =>
       (* a host function panicking at its j-th call: log is the first j entries of the
